@@ -109,6 +109,12 @@ theorem mux_model_is_instance (cfg : Cfg) (loc : Loc) :
     CBSpec memCBs ∧ (∀ s inp, G.step memCBs cfg loc s inp = step cfg loc s inp) :=
   ⟨memCBs_spec, step_mem cfg loc⟩
 
+/-- nil rows are ordinary values of the model (`Val` 0 is the Go value nil; `MutSpec`/`CBSpec` put no condition on the value a
+callback hands back): a cached row updated to the nil row is cached as the nil row — not left as it was, not dropped -/
+theorem witness_update_to_nil_cached :
+    let s := final (step ⟨.storeFirst, .once⟩ locRemFirst) (State.init false false 0 1) [(.add 1 5, []), (.upd 1 0, [])]
+    s.store = [(1, 0)] ∧ s.caches = [⟨false, false, 0, [(1, 0)]⟩] := by decide
+
 /-- the contract has teeth: an `addFn` that reports success without storing the row (so `MutSpec` fails) leaves the
 cache holding a row the store does not have -/
 def lyingAdd : CBs := { memCBs with add := fun c _ v => (.ok v, c) }
